@@ -149,6 +149,7 @@ class Corrupt(Machine):
                             "to_stdout": s.chance(0.2)})
         if swarm["fast_stack"] and s.chance(0.35):
             ops.append({"kind": "deep_hier", "i": len(ops), "form": s.choice(["stdout", "stdout", "yaml", "json"]),
+                        "hier": s.chance(0.6),
                         "depths": [4, 8, 16] if tier == "quick" else [4, 8, 16, 32]})
         return {"seed": seed, "swarm": swarm, "ops": ops, "faults": []}
 
@@ -202,7 +203,7 @@ class Corrupt(Machine):
         prev, results = None, []
         depth_built = -1
         model["_last_outcome"] = "ok"
-        model["_abstract"] = ("deep_hier", op["form"])
+        model["_abstract"] = ("deep_hier", op["form"], op.get("hier", True))
         for d in op["depths"]:
             while depth_built < d:
                 depth_built += 1
@@ -217,7 +218,8 @@ class Corrupt(Machine):
             n_in = len(host.read(in_rel))
             out_rel = None if op["form"] == "stdout" else f"deep{op['i']}.{op['form']}"
             t0 = time.process_time()
-            o = world.parse(host, in_rel, out_rel, fmt=op["form"] if out_rel else "yaml", hier=True, entry="cli", timeout=30.0)
+            hier = op.get("hier", True)
+            o = world.parse(host, in_rel, out_rel, fmt=op["form"] if out_rel else "yaml", hier=hier, entry="cli", timeout=30.0)
             cpu = time.process_time() - t0
             ex["deep_hierarchy_parses"] = ex.get("deep_hierarchy_parses", 0) + 1
             if o.cls == "hang":
@@ -233,6 +235,13 @@ class Corrupt(Machine):
             ex["max_hier_output_per_input_byte"] = max(ex.get("max_hier_output_per_input_byte", 0), int(n_out / max(1, n_in)))
             # measured on the unchanged tree: 7.5 / 9.3 / 12.8 output bytes per input byte at depth 4 / 8 / 16 (YAML
             # indentation grows with the depth) and x2.3 - x2.6 per doubling of the depth
+            if not hier and n_out > 8 * n_in + 4096:
+                # without --parse-hierarchy every dependency is shown as one hex string: 2.2 - 2.7 output bytes per input
+                # byte at every depth
+                return [violation("C17", "memory-bound", op["i"],
+                                  f"plain parse ({op['form']}, no --parse-hierarchy) wrote {n_out} bytes for a valid {n_in}-byte "
+                                  f"envelope nested {d} deep ({n_out / max(1, n_in):.1f} per input byte; 2.2 - 2.7 is normal)",
+                                  cls="memory")]
             if n_out > 200 * n_in + 4096:
                 return [violation("C17", "memory-bound", op["i"],
                                   f"parse --parse-hierarchy ({op['form']}) wrote {n_out} bytes for a valid {n_in}-byte envelope "
